@@ -87,14 +87,21 @@ def getDBusEndpoints(reactor, busAddress, client=True):
                 d[k] = v
 
         if kind == 'unix':
+            path = None
             if 'path' in d:
                 path = d['path']
             elif 'tmpdir' in d:
                 path = d['tmpdir'] + '/dbus-' + str(os.getpid())
             elif 'abstract' in d:
                 path = '\0' + d['abstract']
+            elif d.get('runtime') == 'yes' and 'XDG_RUNTIME_DIR' in os.environ:
+                path = os.environ['XDG_RUNTIME_DIR'] + '/bus'
 
-            if client:
+            # an entry that names no socket this implementation can find
+            # is skipped, like an entry of an unknown transport
+            if path is None:
+                pass
+            elif client:
                 ep = UNIXClientEndpoint(reactor, path=path)
             else:
                 ep = UNIXServerEndpoint(reactor, address=path)
